@@ -20,6 +20,7 @@ import (
 type liveSink struct {
 	ln    net.Listener
 	lines int64
+	conns int64
 }
 
 func newLiveSink() *liveSink {
@@ -34,6 +35,7 @@ func newLiveSink() *liveSink {
 			if err != nil {
 				return
 			}
+			atomic.AddInt64(&s.conns, 1)
 			go func() {
 				buf := make([]byte, 4096)
 				for {
@@ -129,6 +131,29 @@ func init() {
 				dests = append(dests[:i:i], dests[i+1:]...)
 				sinks = append(sinks[:i:i], sinks[i+1:]...)
 				emit("del ok")
+			case "repoint":
+				// modDest addr=: an existing destination is pointed at another host:port:instance
+				i, _ := strconv.Atoi(f[1])
+				if i >= len(dests) {
+					emit("repoint err")
+					return
+				}
+				p := strings.Split(f[2], ":")
+				ns := newLiveSink()
+				p[1] = strconv.Itoa(ns.ln.Addr().(*net.TCPAddr).Port)
+				if err := rt.UpdateDestination(i, map[string]string{"addr": strings.Join(p, ":")}); err != nil {
+					emit("repoint err")
+					return
+				}
+				old := sinks[i]
+				sinks[i] = ns
+				// the old endpoint goes away; the destination has to be connected to the new one before keys are sent
+				old.ln.Close()
+				for t := 0; t < 3000 && atomic.LoadInt64(&ns.conns) == 0; t++ {
+					time.Sleep(time.Millisecond)
+				}
+				waitOnline()
+				emit("repoint ok")
 			case "k":
 				before := make([]int64, len(sinks))
 				for i, s := range sinks {
